@@ -293,7 +293,9 @@ class FuncFacts:
         finally:
             FuncFacts._follow_depth -= 1
         fr = Frame(hf, b, self, at, None)
-        return self._lift(cps, fr, lambda a: self._paths(a, at, stack, env, spine))
+        out = self._lift(cps, fr, lambda a: self._paths(a, at, stack, env, spine))
+        # the value passed through the helper: rules that ask "was this routed through helper h" still see it
+        return self._ext(out, Op("via", dotted(e.func) or norm(e.func), e))
 
     def _lift(self, cps, fr: Frame, arg_paths) -> list[Path]:
         """callee paths -> caller paths: parameter atoms are replaced by the paths of the bound argument"""
@@ -443,7 +445,14 @@ class FuncFacts:
         if isinstance(e, ast.UnaryOp):
             return self._ext(self._paths(e.operand, at, stack, env, spine), Op("unary", type(e.op).__name__, e))
         if isinstance(e, ast.Subscript):
-            ps = self._ext(self._paths(e.value, at, stack, env, spine), Op("subscript", norm(e.slice), e))
+            node = e
+            if isinstance(e.slice, ast.Name) and e.slice.id not in env:
+                # container[key] where key is a local bound once to a string literal: the literal is the key
+                kd = self.rd.reaching(e.slice.id, at)
+                if len(kd) == 1 and kd[0].kind == "assign" and not kd[0].index and isinstance(kd[0].value, ast.Constant) and isinstance(kd[0].value.value, str):
+                    node = ast.Subscript(value=e.value, slice=kd[0].value, ctx=ast.Load())
+                    ast.copy_location(node, e)
+            ps = self._ext(self._paths(e.value, at, stack, env, spine), Op("subscript", norm(node.slice), node))
             if not spine and not isinstance(e.slice, (ast.Constant, ast.Slice)):
                 ps += self._ext(self._paths(e.slice, at, stack, env, spine), Op("index", "", e))
             return ps
